@@ -185,6 +185,12 @@ func (p *LogPredicate) Validate() error {
 	if err := p.ValuePredicate.Validate(); err != nil {
 		return err
 	}
+	// A topic is always exactly one word. A BytesEq argument of any other length can never match
+	// and cannot be expressed as a topic filter (see ToFilterQuery).
+	if p.LogValueRef.IsTopic() && p.ValuePredicate.Op == BytesEq && len(p.ValuePredicate.ByteArgs[0]) != Word {
+		return fmt.Errorf("BytesEq predicate on topic %d must have a %d-byte argument, got %d bytes",
+			p.LogValueRef.Offset, Word, len(p.ValuePredicate.ByteArgs[0]))
+	}
 	return nil
 }
 
